@@ -69,8 +69,8 @@ Print Assumptions C15_http_json_transcript.
 Theorem C15_legacy_order :
   forall c (l : list cstep),
   Forall Carrier.cstep_ok l ->
-  map snd (SseLegacy.run c SseLegacy.SIdle (lconv_events l)) = lconv_canonical l
-  /\ SseLegacy.final c SseLegacy.SIdle (lconv_events l) = SseLegacy.SIdle.
+  map snd (SseLegacy.run c SseLegacy.sinit (lconv_events l)) = lconv_canonical l
+  /\ SseLegacy.final c SseLegacy.sinit (lconv_events l) = SseLegacy.sinit.
 Proof. exact Carrier.legacy_conversation_order. Qed.
 Print Assumptions C15_legacy_order.
 
